@@ -97,6 +97,16 @@ def check_record(args):
                 if bad:
                     out['mism'].append(dict(what='nf-report-points', field=nm, first_bad=bad[0],
                                             got=bl[bad[0]]['point'], want=exp[bad[0]]))
+        # the same object asked again for a grid that differs by a hair (a fine scan): the points are those of
+        # the NEW request
+        ax_ = max(range(3), key=lambda j: cnt[j])
+        st2 = list(start)
+        st2[ax_] = start[ax_] + 4e-9 + 4e-6 * abs(start[ax_])
+        m.compute_near_field(st2, inc, cnt)
+        got2 = np.array(m.near_field_coord).T
+        exp2 = [tuple(p[j] + (st2[j] - start[j]) for j in range(3)) for p in exp]
+        if got2.shape != (len(exp2), 3) or any(not close(got2[q][ax_], exp2[q][ax_]) for q in range(len(exp2))):
+            out['mism'].append(dict(what='nf-second-request-keeps-first-grid', axis=ax_, shift=st2[ax_] - start[ax_]))
         # ---------------- far field (API): axis 1 = zenith, axis 2 = azimuth
         zen = Angle(start[0], inc[0], cnt[0])
         azi = Angle(start[1], inc[1], cnt[1])
